@@ -558,7 +558,7 @@ func TestVerifC10(t *testing.T) {
 					advStep{At: fl.at + vMs, Kind: "rs", Src: "fe80::a:5"})
 				c.Steps = append(c.Steps, advStep{At: fl.at - 3500*vMs, Kind: "rs", Src: "::"})
 			}
-			expect = map[string]string{"nobufs": "redial", "syscall": "redial", "perm": "error", "other": "error"}[parts[1]]
+			expect = map[string]string{"nobufs": "redial", "syscall": "redial", "perm": "error", "other": "error", "op-nobufs": "redial", "op-acces": "error"}[parts[1]]
 		case "link":
 			c.Steps = append(c.Steps, advStep{At: fl.at, Kind: "link"})
 			expect = "redial"
@@ -726,7 +726,7 @@ func TestVerifC10(t *testing.T) {
 
 	kinds := []string{"read:syscall", "read:perm", "read:other", "read:eintr", "read:emfile", "read:op-netdown", "timeouts:1", "timeouts:2", "timeouts:3", "timeouts:4", "timeouts:5", "timeouts:6",
 		"timeoutsinv:1", "timeoutsinv:3", "timeoutsinv:4", "timeoutsinv:5",
-		"linkondial", "write:nobufs", "write:perm", "write:other", "writepending:nobufs", "writepending:other", "writeall:nobufs", "writeall:perm", "link", "watchclose"}
+		"linkondial", "write:nobufs", "write:perm", "write:other", "write:op-nobufs", "write:op-acces", "writepending:nobufs", "writepending:other", "writeall:nobufs", "writeall:perm", "link", "watchclose"}
 	// the same read-side faults against a Monitor task
 	mreps := r.Pick(4, 150)
 	for _, k := range []string{"read:syscall", "read:perm", "read:other", "read:eintr", "read:emfile", "timeouts:1", "timeouts:4", "timeouts:5", "timeouts:6", "link", "linkondial", "watchclose"} {
